@@ -633,9 +633,11 @@ pub fn explore(sc: &Scenario, opts: &Opts) -> ScenarioResult {
         res.bound_completed = d as i64;
         level = next;
         if level.is_empty() {
-            // the whole schedule tree is exhausted below the bound
-            res.bound_completed = (sc.bound_max.max(sc.bound)) as i64;
-            res.tree_exhausted = true;
+            if d < sc.bound_max.max(sc.bound) {
+                // no execution of this level has a further alternative: the whole schedule tree is exhausted
+                res.bound_completed = (sc.bound_max.max(sc.bound)) as i64;
+                res.tree_exhausted = true;
+            }
             break;
         }
     }
